@@ -29,7 +29,8 @@ RULE = ('three kinds of case on small seeded runs (K = 20..90 batches; networks 
         'run is repeated as run(n_like_max = k*n_batch) for EVERY k = 1..K with the checkpoint copied after each '
         'return; for every k in this case\'s residue class (k mod 8) a NEW Sampler object (a fresh interpreter for '
         'two of them) is built from copy k and run to completion; sliced and resumed digests (posterior arrays, log_z, '
-        'n_eff, n_like) must equal the reference and no unit point may be evaluated both before and after the cut. '
+        'n_eff, n_like) must equal the reference and no unit point may be evaluated both before and after the cut (the '
+        'one-update-per-bound configuration, K ~ 190, resumes every fourth exploration boundary and every sampling one). '
         '(multi) random sequences of stops (multiples and non-multiples of n_batch, virtual-clock timeouts) and resumes. '
         '(toggle) a history with discard_exploration toggles executed in one piece and again with a resume after every '
         'step. Non-trivial = distinct (configuration, k) pairs resumed and compared (+ completed multi/toggle '
@@ -55,6 +56,11 @@ def gen_cases(tier, seed):
                    discard_exploration=bool(j % 3 == 0))
         if cfg['n_batch'] == 16:
             cfg['n_live'] = 60
+        if j % 4 == 3:
+            # one update per bound (tests/test_sampler.py::test_sampler_empty_shells): empty shells, often the first
+            # one, are removed at the end of exploration; the checkpoint must restore what is left
+            cfg.update(n_update=1, n_live=10, n_batch=2, f_live=0.05, n_networks=0, n_eff=20, n_shell=1,
+                       n_like_new_bound=None, n_points_min=None, enlarge_per_dim=2.0, periodic=None)
         base = {'seed': seed, 'prob': pspec, 'cfg': cfg, 'j': j}
         for r in range(R):
             cases.append(dict(base, kind='every_k', residue=r, i=len(cases)))
@@ -119,7 +125,7 @@ def _resume_in_child(spec, cap, path, scratch):
 def run_case(spec):
     cfg = spec['cfg']
     nb = cfg['n_batch']
-    cap = 60 * nb + 40 * cfg['n_live']
+    cap = 60 * nb + 40 * cfg['n_live'] + (1500 if cfg['n_update'] == 1 else 0)
     obs = dict(resumes_compared=0, sliced_runs_compared=0, batches_in_reference_max=0, fresh_process_resumes=0,
                phase={'exploration': 0, 'bound_insertion_next': 0, 'end_of_exploration': 0, 'sampling': 0},
                points_checked_for_double_evaluation=0, multi_histories=0, toggle_histories=0, stops=0)
@@ -165,7 +171,8 @@ def run_case(spec):
                         k += 1
                         done = s.run(**_kw(cfg, n_like_max=k * nb))
                         obs['stops'] += 1
-                        if k % R == spec['residue'] and not done:
+                        thin = cfg['n_update'] == 1 and not s.explored and (k // R) % 4 != 0
+                        if k % R == spec['residue'] and not done and not thin:
                             cp = os.path.join(scratch, 'copy-%d.hdf5' % k)
                             shutil.copyfile(path, cp)
                             copies[k] = (cp, _phase(s, cfg), len(log.rows), int(s.n_like))
